@@ -52,6 +52,13 @@ class World:
                 ("P", "H", hart),
             ]
         self.n = 4
+        # NullOperator leaves of every type; in the Coq model all of them are the reserved leaf
+        # `null_id` with capability TIMES|ADJOINT_TIMES (no matrix is passed for it: zero)
+        self.nulls = set()
+        for a in "PH":
+            for b in "PH":
+                self.nulls.add(len(self.leafs))
+                self.leafs.append((a, b, ift.NullOperator(self.dom(a), self.dom(b))))
 
     def dom(self, t):
         return self.P if t == "P" else self.H
@@ -129,7 +136,9 @@ def gen_expr(rng, w, depth, dt, tt, allow_sandwich):
         choices = []
         if dt == tt:
             choices += ["scal", "scal", "diag", "diag", "diag"]
-        choices += ["leaf%d" % i for i, (a, b, _) in enumerate(w.leafs) if a == dt and b == tt]
+        choices += ["leaf%d" % i for i, (a, b, _) in enumerate(w.leafs) if a == dt and b == tt and i not in w.nulls]
+        if rng.integers(12) == 0:      # a NullOperator now and then (it annihilates whole chains)
+            choices = ["leaf%d" % i for i, (a, b, _) in enumerate(w.leafs) if a == dt and b == tt and i in w.nulls]
         if not choices:
             return None
         c = choices[int(rng.integers(len(choices)))]
@@ -270,6 +279,8 @@ def coq_prim(w, p, leafcaps):
             shp = [s if i == p[4] else 1 for i, s in enumerate(d.shape)]
             vals = np.broadcast_to(vals.reshape(shp), d.shape).reshape(-1)
         return "(@Diag CQA (vec_of %s) 0%%Z %s)" % (C.clist([cqc(v) for v in vals]), "(Some 1%nat)" if p[3] else "None")
+    if p[1] in w.nulls:
+        return "(null_op CQA)"
     return "(@Leaf CQA %d%%nat %d%%Z)" % (p[1], leafcaps[p[1]])
 
 
@@ -304,7 +315,8 @@ class C01(C.Check):
         "closeness predicate 2^-30 relative between exact Gaussian-rational model output and float64 implementation output",
     ]
     assumptions = [
-        "all operators of one expression live on domains of equal size; MultiDomain sums, BlockDiagonalOperator, NullOperator, SandwichOperator are covered by the direct oracle only",
+        "all operators of one expression live on domains of equal size; MultiDomain sums and BlockDiagonalOperator are covered by the direct oracle only",
+        "NullOperator is the reserved leaf null_id of the model; the theorems assume that this leaf is the zero map (the implementation's NullOperator.apply is compared with zero in the correspondence)",
         "exact field arithmetic in the theorems; float rounding only enters the tolerance of the correspondence",
     ]
 
@@ -426,6 +438,29 @@ class C01(C.Check):
                 out.append(("rg", ["adj", ["sub", ["comp", A, dv1(d1)], ["scale", cplx(1j), dv2(d2)]]]))
         # SandwichOperator.make (direct oracle only): scaling buns incl. complex and negative
         # factors, operator buns, nested sandwiches as cheese
+        # NullOperator: collapse of chains (also of re-made flipped chains and through unpacking),
+        # sums with a null summand, sandwiches with a null bun / cheese
+        N = ["prim", ["leaf", 4]]          # NullOperator(P, P) in the "rg" world
+        B = ["prim", ["leaf", 1]]
+        for x in [A, B, D(d1), D(d1, 0, "inv"), S(2), S(1j), ["comp", A, D(d1)], ["add", A, D(d2)]]:
+            out.append(("rg", ["comp", x, N]))
+            out.append(("rg", ["comp", N, x]))
+            out.append(("rg", ["adj", ["comp", x, N]]))
+            out.append(("rg", ["comp", ["adj", N], x]))
+            out.append(("rg", ["adj", ["comp", ["adj", N], x]]))          # hidden Null re-exposed by the flip
+            out.append(("rg", ["inv", ["comp", ["inv", N], x]]))
+            out.append(("rg", ["comp", x, ["comp", ["scale", cplx(3), N], D(d2)]]))
+            out.append(("rg", ["add", x, N]))
+            out.append(("rg", ["sub", N, x]))
+            out.append(("rg", ["add", ["comp", x, N], D(d2)]))
+            out.append(("rg", ["scale", cplx(-2), ["comp", N, x]]))
+            out.append(("rg", ["sandwich", N, x]))
+            out.append(("rg", ["sandwich", x, N]))
+        out.append(("rg", ["neg", N]))
+        out.append(("rg", ["scale", cplx(1j), N]))
+        out.append(("rg", ["adj", N]))
+        out.append(("rg", ["inv", N]))
+        out.append(("rg", ["comp", N, N]))
         buns = [S(2), S(-2), S(1j), S(1 + 1j), S(-0.5, 1), A, ["prim", ["leaf", 1]], D(d2), D(d2, 0, "inv")]
         cheeses = [D(d1), D(d1, 1), S(4), ["sandwich", A, D(d1)], ["sandwich", S(2j), D(d1)]]
         for b in buns:
@@ -497,7 +532,7 @@ class C01(C.Check):
         res.coverage.update({
             "evaluations": len(self.cases), "modelled_cases": len(checks),
             "distinct_nontrivial": distinct,
-            "rule": "random typed expression trees (depth<=%d) over scaling/diagonal (full and partial-space, real and complex, with and without sampling dtype)/matrix/Hartley/FFT leaves on a 4-pixel RG space and a (RG(2),Unstructured(2)) product; non-trivial = at least 3 nodes; distinct by JSON of the tree" % (3 if ctx.quick else 5),
+            "rule": "random typed expression trees (depth<=%d) over scaling/diagonal (full and partial-space, real and complex, with and without sampling dtype)/matrix/Hartley/FFT/NullOperator leaves on a 4-pixel RG space and a (RG(2),Unstructured(2)) product; non-trivial = at least 3 nodes; distinct by JSON of the tree" % (3 if ctx.quick else 5),
             "samples": [self.cases[i]["expr"] for i in range(min(3, len(self.cases)))],
             "input_distribution": kinds, "disagreements": len(bad),
             "tables_sha256": getattr(self, "sha", None),
